@@ -62,6 +62,27 @@ Fixpoint rmatch (dotall : bool) (r : regex) (p : str) {struct r} : bool :=
 Definition glob_match (dotall : bool) (g p : str) : res bool :=
   bind (glob_to_regex g) (fun r => Ok (rmatch dotall r p)).
 
+(* proposed_fixes/C17-invalid-glob-escape.patch turns glob_to_regex into
+     try_glob_to_regex(glob) -> Result<Regex, String>       (both panic! arms become Err, and
+                                                             Regex::new(..).map_err(..) replaces the unwrap)
+     glob_to_regex(glob) = try_glob_to_regex(glob).unwrap_or_else(|e| panic!(..))   (#[cfg(test)] only)
+     glob_matches(glob, path) = try_glob_to_regex(glob).map_or(false, |r| r.is_match(path))
+   so [glob_to_regex] above stays the model of the panicking function; Err 6 = the Err(String). *)
+Definition try_glob_to_regex (g : str) : res regex :=
+  match glob_to_regex g with
+  | Ok r => Ok r
+  | Panic _ => Err 6
+  | Err e => Err e
+  | OutOfFuel => OutOfFuel
+  end.
+(* glob::glob_matches of the patched code (named glob_is_match here: [glob_matches] below is the
+   specification): a pattern that is not a valid glob matches nothing *)
+Definition glob_is_match (dotall : bool) (g p : str) : bool :=
+  match try_glob_to_regex g with
+  | Ok r => rmatch dotall r p
+  | _ => false
+  end.
+
 (* ------------------------------------------------------------------------------------------
    Specification (from the property text; nothing below is a transcription of code).
    "'*' matches any run of characters including '/', '?' matches exactly one character, a
